@@ -87,8 +87,11 @@ PadChoicesFor(g) == IF g.k = "nil" \/ (g.k = "s" /\ g.nc = 0 /\ g.body = <<>>) T
 (* written as one flag byte + repeat count (rep) or as n flag bytes.       *)
 (* dx/dy: magnitude (short vector), 0 (same) or signed delta (long).       *)
 BaseFlags == {f \in 0..63 : ~Bit(f, 8)}
-RunKinds  == {<<1, FALSE>>, <<1, TRUE>>, <<2, FALSE>>, <<2, TRUE>>, <<3, TRUE>>}
-               \cup (IF With256 THEN {<<256, TRUE>>} ELSE {})
+\* <<n, repeat form, all deltas zero>>: the last two are the legal-but-unusual "short vector of 0" and
+\* "long delta of 0" encodings for every flag byte
+RunKinds  == {<<1, FALSE, FALSE>>, <<1, TRUE, FALSE>>, <<2, FALSE, FALSE>>, <<2, TRUE, FALSE>>, <<3, TRUE, FALSE>>,
+              <<1, FALSE, TRUE>>, <<2, TRUE, TRUE>>}
+               \cup (IF With256 THEN {<<256, TRUE, FALSE>>} ELSE {})
 ShortVals == <<0, 1, 255, 100, 17, 254, 3>>
 LongVals  == <<300, -300, 256, -256, 1000, -1, 0, 255, -255, -1000, 32767, -32767, 5, -4000>>
 
@@ -111,8 +114,9 @@ NumPts(runs) == FoldLeft(LAMBDA a, r : a + r.n, 0, runs)
 AddRun(f, k) ==
   /\ ph = "build" /\ Kind = "simple" /\ Len(acc) < MaxRuns
   /\ LET key == 31 * Len(acc) + f
-         gx  == GenDeltas(f, 2, 16, k[1], cur[1], key)
-         gy  == GenDeltas(f, 4, 32, k[1], cur[2], key + 7)
+         zs  == [ds |-> [i \in 1..k[1] |-> 0], end |-> 0]
+         gx  == IF k[3] THEN [zs EXCEPT !.end = cur[1]] ELSE GenDeltas(f, 2, 16, k[1], cur[1], key)
+         gy  == IF k[3] THEN [zs EXCEPT !.end = cur[2]] ELSE GenDeltas(f, 4, 32, k[1], cur[2], key + 7)
      IN /\ acc' = Append(acc, [f |-> f, n |-> k[1], rep |-> k[2], dx |-> gx.ds, dy |-> gy.ds])
         /\ cur' = <<gx.end, gy.end>>
   /\ UNCHANGED <<ph, pads, shape, enc, gs, have, prev, ghost, last, steps, hs>>
@@ -152,16 +156,19 @@ InstrChoices == {<<>>, <<176, 1, 45>>}
 SimpleValue(nc, bbox, body) == [k |-> "s", nc |-> nc, bbox |-> bbox, body |-> body, comps |-> <<>>,
                                 instr |-> <<>>, hasinstr |-> FALSE]
 
-\* finish: the single glyph, optionally preceded by an empty glyph, is the glyph set
-Finish(g, pad, fmt, lead) ==
+\* finish: the single glyph, optionally preceded by an empty glyph, is the glyph set.
+\* hnc: numberOfContours written for a composite glyph; trail: bytes between description and padding
+FinishH(g, pad, fmt, lead, hnc, trail) ==
   LET vals == IF lead THEN <<NilGlyph, g>> ELSE <<g>>
-      rec  == EncodeValue(g) \o Zeros(pad)
+      rec  == EncodeValueH(g, hnc) \o trail \o Zeros(pad)
       recs == IF lead THEN <<<<>>, rec>> ELSE <<rec>>
   IN /\ ph' = "run"
      /\ shape' = vals
      /\ enc' = EncodeRecs(recs, fmt)
      /\ ghost' = OffsOf(recs)
      /\ UNCHANGED <<acc, cur, pads, gs, have, prev, last, steps, hs>>
+
+Finish(g, pad, fmt, lead) == FinishH(g, pad, fmt, lead, -1, <<>>)
 
 \* one deterministic choice out of a finite set, selected by Salt and a key
 PickSet(S, key) == LET q == SetToSeq(S) IN q[((Salt + key) % Len(q)) + 1]
@@ -190,31 +197,40 @@ FinishZero ==
 GidVals   == <<0, 1, 258, 65535, 4660, 7, 513>>
 ExtraBits == <<0, 2, 6, 512, 1026, 2050, 4098, 1536>>   \* XY_VALUES, ROUND, USE_MY_METRICS, OVERLAP, (UN)SCALED
 
-AddComp(aw, tr) ==
+\* one component record: argument size, transform size and WE_HAVE_INSTRUCTIONS are enumerated
+\* independently for every record; the other bits, the id and the argument bytes vary with Salt
+AddComp(aw, tr, wi) ==
   /\ ph = "build" /\ Kind = "comp" /\ Len(acc) < MaxComps
-  /\ LET key   == 17 * Len(acc) + 5 * aw + tr
-         flags == aw + tr + Pick(ExtraBits, key)
+  /\ LET key   == 17 * Len(acc) + 5 * aw + tr + 3 * wi
+         flags == aw + tr + 256 * wi + Pick(ExtraBits, key)
          n     == ArgLen(flags) + TrLen(flags)
      IN acc' = Append(acc, [flags |-> flags, gid |-> Pick(GidVals, key),
                             data |-> [j \in 1..n |-> (Salt * 7 + key * 13 + j * 29) % 256]])
   /\ UNCHANGED <<ph, cur, pads, shape, enc, gs, have, prev, ghost, last, steps, hs>>
 
-\* ins: "none" | "empty" | "some"; all: WE_HAVE_INSTRUCTIONS on every component or on the last only
-CompValue(comps, ins, all) ==
+\* The value of a component list (MORE_COMPONENTS added): instructions follow iff the LAST record
+\* carries WE_HAVE_INSTRUCTIONS (primary reading); ins: "empty" | "some" says which.
+CompValue(comps, ins) ==
   LET n  == Len(comps)
-      hi == ins # "none"
-      cs == [i \in 1..n |-> [comps[i] EXCEPT !.flags = comps[i].flags
-                                + (IF i < n THEN 32 ELSE 0)
-                                + (IF hi /\ (all \/ i = n) THEN 256 ELSE 0)]]
+      hi == Bit(comps[n].flags, 256)
+      cs == [i \in 1..n |-> [comps[i] EXCEPT !.flags = comps[i].flags + (IF i < n THEN 32 ELSE 0)]]
   IN [k |-> "c", nc |-> -1, bbox |-> <<-10, -20, 300 + n, 400>>, body |-> <<>>, comps |-> cs,
-      instr |-> IF ins = "some" THEN <<64, 1, 2, 3, 4>> ELSE <<>>, hasinstr |-> hi]
+      instr |-> IF hi /\ ins = "some" THEN <<64, 1, 2, 3, 4>> ELSE <<>>, hasinstr |-> hi]
 
+HeaderNcs == {-1, -2, -3, -128, -32768}
+\* bytes after the last record when only an EARLIER record carries the bit (the two readings differ)
+Trails == {<<>>, <<0, 0>>, <<0, 3, 9, 8, 7>>}
 FinishComp ==
   /\ ph = "build" /\ Kind = "comp" /\ Len(acc) >= 1
-  /\ \E ins \in Alts({"none", "empty", "some"}, Len(acc)), all \in Alts(BOOLEAN, Len(acc) + 1) :
-       LET g == CompValue(acc, ins, all) IN
-       \E pad \in Alts(PadChoices(Len(EncodeValue(g))), acc[1].flags), fmt \in Alts({0, 1}, acc[1].gid) :
-         Finish(g, pad, fmt, (Salt + Len(acc)) % 2 = 0)
+  /\ LET n     == Len(acc)
+         hi    == Bit(acc[n].flags, 256)
+         early == \E j \in 1..(n - 1) : Bit(acc[j].flags, 256)
+     IN \E ins \in (IF hi THEN Alts({"empty", "some"}, n) ELSE {"none"}),
+           trail \in (IF ~hi /\ early THEN Alts(Trails, n + 1) ELSE {<<>>}),
+           hnc \in (IF n = 1 /\ FinishFull THEN HeaderNcs ELSE {PickSet(HeaderNcs, acc[1].flags + acc[n].gid + n)}) :
+          LET g == CompValue(acc, ins) IN
+          \E pad \in Alts(PadChoices(Len(EncodeValue(g)) + Len(trail)), acc[1].flags) :
+            FinishH(g, pad, PickSet({0, 1}, acc[1].gid + n), (Salt + n) % 2 = 0, hnc, trail)
 
 ---------------------------------------------------------------------------
 (* kind "set": glyph sets over a palette                                   *)
@@ -232,9 +248,9 @@ Palette == <<
           <<PRun(1 + 2 + 16, 2, TRUE, <<10, 200>>, <<-300, 700>>), PRun(4 + 32, 2, FALSE, <<-1000, 5>>, <<7, 255>>)>>),
   PSimple(<<0, 1, 2, 3, 5>>, <<>>,                                    \* "many" contours
           <<PRun(1 + 2 + 4, 6, TRUE, <<1, 2, 3, 4, 5, 6>>, <<6, 5, 4, 3, 2, 1>>)>>),
-  CompValue(<<PComp(2, 3, <<5, 250>>)>>, "none", FALSE),
-  CompValue(<<PComp(1 + 2 + 8, 4, <<0, 100, 255, 156, 64, 0>>), PComp(2 + 64, 258, <<1, 2, 64, 0, 32, 0>>)>>, "some", TRUE),
-  CompValue(<<PComp(128, 1, <<3, 4, 64, 0, 0, 0, 0, 0, 64, 0>>), PComp(1, 65535, <<0, 1, 0, 2>>), PComp(2 + 512, 4, <<9, 9>>)>>, "empty", FALSE)
+  CompValue(<<PComp(2, 3, <<5, 250>>)>>, "none"),
+  CompValue(<<PComp(1 + 2 + 8 + 256, 4, <<0, 100, 255, 156, 64, 0>>), PComp(2 + 64 + 256, 258, <<1, 2, 64, 0, 32, 0>>)>>, "some"),
+  CompValue(<<PComp(128, 1, <<3, 4, 64, 0, 0, 0, 0, 0, 64, 0>>), PComp(1, 65535, <<0, 1, 0, 2>>), PComp(2 + 512 + 256, 4, <<9, 9>>)>>, "empty")
 >>
 
 AddGlyph(p, pad) ==
@@ -383,7 +399,7 @@ Init ==
 Next ==
   \/ \E f \in BaseFlags, k \in RunKinds : AddRun(f, k)
   \/ FinishSimple \/ FinishZero
-  \/ \E aw \in {0, 1}, tr \in {0, 8, 64, 128} : AddComp(aw, tr)
+  \/ \E aw \in {0, 1}, tr \in {0, 8, 64, 128}, wi \in {0, 1} : AddComp(aw, tr, wi)
   \/ FinishComp
   \/ \E p \in 1..Len(Palette), pad \in 0..3 : AddGlyph(p, pad)
   \/ FinishSet
